@@ -8,10 +8,15 @@ from harness import common
 
 COQ_TARGETS = ["Check/EffectsCases.vo"]
 TRUSTED_BASE = [
-    "the classification of CPython primitives into hook-free / hook-invoking (Model/Effects.v: type(), issubclass on real "
-    "types, callable, inspect.getattr_static, container protocol of EXACT builtin containers are hook-free; isinstance and "
-    "getattr are not): an assumption, validated by the tripwire journals, not proved",
-    "harness/extract_effects.py and harness/extract_tracer.py (source -> Gen/EffectsConstants.v, Gen/TracerConstants.v)",
+    "the classification of CPython primitives into hook-free / hook-invoking (Model/Effects.v: type(), issubclass on results "
+    "of type(), callable, inspect.getattr_static, typing.cast, container protocol of EXACT builtin containers (guard on the "
+    "very object) and of their views, truth tests of builtin bool/int results are hook-free; isinstance, getattr and the "
+    "truth value of any other object are not): an assumption, validated by the tripwire journals, not proved",
+    "harness/extract_effects.py and harness/extract_tracer.py (source -> Gen/EffectsConstants.v, Gen/TracerConstants.v), "
+    "both on top of the normal form of harness/ast_canon.py (its assumptions [A1]-[A4]); extract_effects.py describes a "
+    "primitive as (operation, origin of the object, attribute/class argument, exact-type guard, origin of the guarded "
+    "object) by reaching definitions and by walking through private / fixed helper functions, and emits SETS: it does not "
+    "describe operators (==, in, [], %), the order or the number of occurrences of an operation",
     "harness/tripwire_run.py (tripwire classes, workload, fault injection)",
 ]
 ASSUMPTIONS = ["contained failures are reported through the `logging` module (stderr); only stdout, results, exceptions and the "
@@ -22,7 +27,7 @@ PARTIAL = ["'same results and output for arbitrary programs' is a statement abou
            "hook-freedom of the primitives is an assumption about CPython"]
 
 FAULTS = ["none", "log", "flush", "log+flush", "body_raises", "body_raises+flush", "body_raises+log", "hot_section",
-          "hot_section+body_raises+flush"]
+          "hot_section+body_raises+flush", "stock_logger", "lookup_raises"]
 WHAT = {5: ("kf_lookup_getattr", "function lookup reads __code__/__wrapped__ (getattr in _has_code) of a module global named like "
                                   "the traced function and of callable locals of outer frames: user attribute hooks run"),
         6: ("kf_metaclass_hash_eq", "the class of a traced value is hashed / compared when types are merged (typing.Union, dict "
@@ -51,6 +56,11 @@ def main():
     print("argv0", os.path.basename(sys.argv[0]), "args", sys.argv[1:])
     print("main module", sys.modules["__main__"].__name__, getattr(sys.modules["__main__"], "__file__", None) is not None,
           hasattr(sys.modules["__main__"], "Rec"))
+    try:
+        import c03helper            # a project-local module; a same-named one sits further down sys.path
+        print("helper", c03helper.WHO)
+    except ImportError:
+        print("helper missing")
     random.seed(7)
     work(1, "x")
     print("draws", random.random(), random.randrange(100))
@@ -83,15 +93,28 @@ def cli_run_cases(ctx):
         f.write(CLI_PROG)
     with open(os.path.join(d, "c03cfg.py"), "w") as f:
         f.write(CLI_CFG.format(db=os.path.join(d, "t.sqlite3")))
+    with open(os.path.join(d, "c03helper.py"), "w") as f:
+        f.write("WHO = 'local'\n")
+    os.makedirs(os.path.join(d, "decoy"), exist_ok=True)
+    with open(os.path.join(d, "decoy", "c03helper.py"), "w") as f:
+        f.write("WHO = 'decoy'\n")
     env = common.sub_env()
     env["PYTHONPATH"] = d + os.pathsep + env.get("PYTHONPATH", "")
+    # the installed console script: sys.path[0] is the script's bin directory, the project is found only because the
+    # command puts the working directory in FRONT of sys.path (a same-named module further down must not win)
+    env_console = common.sub_env()
+    env_console["PYTHONPATH"] = env_console.get("PYTHONPATH", "") + os.pathsep + os.path.join(d, "decoy")
+    console = os.path.join(os.path.dirname(common.PY), "monkeytype")
+    forms = [("script", ["c03prog.py"], ["-m", "monkeytype"], ["run", "c03prog.py"], env),
+             ("module", ["-m", "c03prog"], ["-m", "monkeytype"], ["run", "-m", "c03prog"], env)]
+    if os.path.exists(console):
+        forms.append(("console_script", ["c03prog.py"], [console], ["run", "c03prog.py"], env_console))
+        forms.append(("console_script_module", ["-m", "c03prog"], [console], ["run", "-m", "c03prog"], env_console))
     out = []
-    for form, plain, traced in (
-            ("script", ["c03prog.py"], ["run", "c03prog.py"]),
-            ("module", ["-m", "c03prog"], ["run", "-m", "c03prog"])):
-        for extra in (["a", "b"], ["fail"]):
+    for form, plain, launcher, traced, env in forms:
+        for extra in (["a", "b"], ["fail"], ["-x", "--flag=1", "a"], ["pos", "-m", "z", "-v"]):
             p1 = subprocess.run([common.PY] + plain + extra, capture_output=True, text=True, env=env, cwd=d, timeout=120)
-            p2 = subprocess.run([common.PY, "-m", "monkeytype", "-c", "c03cfg:CONFIG"] + traced + extra, capture_output=True,
+            p2 = subprocess.run([common.PY] + launcher + ["-c", "c03cfg:CONFIG"] + traced + extra, capture_output=True,
                                 text=True, env=env, cwd=d, timeout=120)
             out.append({"form": form, "args": extra, "plain": {"rc": p1.returncode, "stdout": p1.stdout, "stderr": p1.stderr[-300:]},
                         "traced": {"rc": p2.returncode, "stdout": p2.stdout, "stderr": p2.stderr[-300:]}})
@@ -128,7 +151,7 @@ def run(ctx):
             common.coq_bool(u["results"] == t["results"] and u["results"] is not None),
             common.coq_bool(u["stdout"] == t["stdout"] and u["stdout"] is not None),
             common.coq_bool(u["exception"] == t["exception"]), common.coq_bool(t["profiler_restored"]),
-            t["flushes"], common.coq_bool(bool(t.get("flush_exception"))), t.get("residue") or 0)
+            t["flushes"], common.coq_bool(bool(t.get("flush_exception"))), max(0, t.get("residue") or 0))
         terms.append(term)
         cases.append({"seed": seed, "fault": fault, "extra": sorted(set(extra)), "missing": sorted(set(missing)),
                       "traced": {k: t.get(k) for k in ("exception", "flush_exception", "profiler_restored", "flushes", "logged", "residue", "stderr")},
@@ -185,8 +208,11 @@ def replay(ctx, payload):
 CLAIM = {
     "text": "Partial. Coq theorems over lists and tags regenerated from the source on every run: "
             "get_type_runs_no_user_code_partial (every primitive type collection applies to a traced value is hook-free: type(), "
-            "issubclass on real types, container protocol only under an exact-builtin-type guard), "
-            "lookup_hooks_only_at_known_sites_partial (function lookup is hook-free except exactly the five recorded sites), "
+            "issubclass on results of type(), container protocol only under an exact-builtin-type guard on that very object, "
+            "truth tests only of builtin results), "
+            "lookup_hooks_only_at_known_sites_partial (function lookup is hook-free except exactly the recorded sites: getattr "
+            "of __code__/__wrapped__ on the eight kinds of lookup candidate, isinstance against three descriptor classes on "
+            "the statically found class attribute), "
             "tracer_contains_failures (any Exception inside the profiler callback is contained), trace_calls_exit_discipline and "
             "trace_calls_always_restores_and_flushes_once (previous profiler restored, flush exactly once, the block's own outcome "
             "is what the program sees, also when flush fails). Behavioural half: differential runs of a tripwire workload, traced "
